@@ -1,4 +1,5 @@
 import Dawgs.Model.SqlEval
+import Dawgs.Model.C01S2
 /-
 C02 — models of the optimiser's transformations.
 
@@ -240,5 +241,49 @@ def cfpUnopt : Sql.Stmt :=
       [.aliased (.composite [.compound ["n0", "id"], .compound ["n0", "kind_ids"], .compound ["n0", "properties"]] "nodecomposite") (some "n0")]
       [.mk (.table ["node"] (some "n0")) []] none [] none))]
     (.select false [.call "count" [.compound ["s0", "n0"]] false false "int8"] [.mk (.table ["s0"] none) []] none [] none) [] none none)
+
+-- ------------------------------------------------------------------ the model translator pair on the proved fragment
+
+/-- `select count(*)::int8 from node n0 [where w]` -/
+def countOptW (w : Option Sql.Expr) : Sql.Stmt :=
+  .query (Sql.Query.simple (.select false [.call "count" [.wildcard] false false "int8"] [.mk (.table ["node"] (some "n0")) []] w [] none))
+
+/-- `with s0 as (select (n0.id, n0.kind_ids, n0.properties)::nodecomposite as n0 from node n0 [where w]) select count(s0.n0)::int8 from s0` -/
+def countUnoptW (w : Option Sql.Expr) : Sql.Stmt :=
+  .query (.mk false
+    [.mk "s0" none none (Sql.Query.simple (.select false [C01.S1.nodeComposite] [.mk (.table ["node"] (some "n0")) []] w [] none))]
+    (.select false [.call "count" [.compound ["s0", "n0"]] false false "int8"] [.mk (.table ["s0"] none) []] none [] none) [] none none)
+
+/-- the count fragment: `MATCH (n[:K…]) RETURN count(n)` — the kinds of the node pattern -/
+def ofCyCount (q : Cy.Query) : Option (List String) :=
+  match q.parts, q.clauses with
+  | [], [.match false [.mk none false false (.mk (some n) kinds []) []] none] =>
+    if q.ret.distinct || q.ret.all || !q.ret.orderBy.isEmpty || q.ret.skip.isSome || q.ret.limit.isSome then none else
+    match q.ret.items with
+    | [⟨.fn "count" false [.var v], none⟩] => if v == n then some kinds else none
+    | _ => none
+  | _, _ => none
+
+def countWhere (km : KindMap) (ks : List String) : Option (Option Sql.Expr) :=
+  if ks.isEmpty then some none else (C01.S1.Pred.tr km (.kinds ks)).map some
+
+/-- THE MODEL TRANSLATOR WITH the optimiser, on the proved fragment: stages S1 and S2a of C01 (`tr2`: there no rule and no lowering changes
+the statement) and the count fragment, where the count-store fast path fires; `none` elsewhere -/
+def trOpt (km : KindMap) (q : Cy.Query) : Option (Sql.Stmt × List (String × Val)) :=
+  match C01.tr2 km q with
+  | some r => some r
+  | none =>
+    match ofCyCount q with
+    | some ks => (countWhere km ks).map (fun w => (countOptW w, []))
+    | none => none
+
+/-- THE MODEL TRANSLATOR WITHOUT the optimiser (what `TranslateUnoptimized` emits) on the same fragment -/
+def trUnopt (km : KindMap) (q : Cy.Query) : Option (Sql.Stmt × List (String × Val)) :=
+  match C01.tr2 km q with
+  | some r => some r
+  | none =>
+    match ofCyCount q with
+    | some ks => (countWhere km ks).map (fun w => (countUnoptW w, []))
+    | none => none
 
 end Dawgs.C02
